@@ -6,9 +6,12 @@
               | "AL" n loader^n      app.AddConfigLoader(…)
               | "CA" n loader^n      option calling s.Configure.AddLoaders(…)
               | "SC" n loader^n      app.SetConfigure(fresh configure with SetLoaders(…))
-              | "SF" loader          app.SetConfig(file)            (loader must be `f …`)
+              | "SF" loader          app.SetConfig(file)            (loader must be `f …` or `~ k`)
     loader   := "r" out | "f" out | "p" int out | "o" int out       raw / file / Priority raw / Ordered raw
               | "a" n (pathhex node)^n                              ArgsLoader with n `--app.config=path=value`
+              | "=" k                                               the same loader object as the k-th loader of the line
+              | "~" k                                               a new FileLoader on the path of the k-th loader
+                                                                    (both: a loader is a value here, so it is that loader again)
     out      := "E" (no bytes) | "X" (LoadConfig fails) | node
     node     := "M" n (keyhex node)^n | "L" n node^n | "P"hex (plain scalar) | "Q"hex (quoted string) | "N" (null)
     path     := hex of the dotted path (`-` = the empty path)
@@ -84,8 +87,14 @@ def pPairs : Nat → Nat → Toks → Option (List (Path × Cfg) × Toks)
     | _, _ => none
   | _, _, [] => none
 
-/-- one loader; `id` numbers the loaders of a scenario -/
-def pLoader (fuel id : Nat) : Toks → Option (Loader × Toks)
+/-- one loader; `id` numbers the loaders of a scenario, `env` = the loaders of the line so far (loader #k = env[k-1]) -/
+def pLoader (fuel id : Nat) (env : List Loader) : Toks → Option (Loader × Toks)
+  | "=" :: n :: r => match n.toNat? with
+    | some k => if k = 0 then none else (env[k-1]?).map fun l => (l, r)
+    | none => none
+  | "~" :: n :: r => match n.toNat? with
+    | some k => if k = 0 then none else (env[k-1]?).map fun l => ({ l with id := id }, r)
+    | none => none
   | "r" :: r => (pOut fuel r).map fun (o, r') => (⟨id, .plain, o⟩, r')
   | "f" :: r => (pOut fuel r).map fun (o, r') => (fileLoader id o, r')
   | "p" :: k :: r => match k.toInt? with
@@ -99,34 +108,34 @@ def pLoader (fuel id : Nat) : Toks → Option (Loader × Toks)
     | none => none
   | _ => none
 
-def pLoaders (fuel : Nat) : Nat → Nat → Toks → Option (List Loader × Nat × Toks)
-  | 0, id, toks => some ([], id, toks)
-  | k+1, id, toks =>
-    match pLoader fuel id toks with
-    | some (l, r) => (pLoaders fuel k (id+1) r).map fun (ls, id', r') => (l :: ls, id', r')
+def pLoaders (fuel : Nat) : Nat → Nat → List Loader → Toks → Option (List Loader × Nat × List Loader × Toks)
+  | 0, id, env, toks => some ([], id, env, toks)
+  | k+1, id, env, toks =>
+    match pLoader fuel id env toks with
+    | some (l, r) => (pLoaders fuel k (id+1) (env ++ [l]) r).map fun (ls, id', env', r') => (l :: ls, id', env', r')
     | none => none
 
-def pOpts : Nat → Nat → Toks → Option (List Opt × Toks)
-  | 0, _, _ => none
-  | _, _, [] => none
-  | f+1, id, tok :: rest =>
+def pOpts : Nat → Nat → List Loader → Toks → Option (List Opt × Toks)
+  | 0, _, _, _ => none
+  | _, _, _, [] => none
+  | f+1, id, env, tok :: rest =>
     if tok = "|" then some ([], rest)
     else if tok = "SF" then
-      match pLoader (f+1) id rest with
-      | some (l, r) => (pOpts f (id+1) r).map fun (os, r') => (.setConfig l :: os, r')
+      match pLoader (f+1) id env rest with
+      | some (l, r) => (pOpts f (id+1) (env ++ [l]) r).map fun (os, r') => (.setConfig l :: os, r')
       | none => none
     else
       match rest with
       | n :: rest' =>
         match n.toNat? with
         | some k =>
-          match pLoaders (f+1) k id rest' with
-          | some (ls, id', r) =>
+          match pLoaders (f+1) k id env rest' with
+          | some (ls, id', env', r) =>
             let mk : Option Opt :=
               if tok = "SL" then some (.setLoaders ls) else if tok = "AL" then some (.addLoaders ls)
               else if tok = "CA" then some (.configureAdd ls) else if tok = "SC" then some (.setConfigure ls) else none
             match mk with
-            | some o => (pOpts f id' r).map fun (os, r') => (o :: os, r')
+            | some o => (pOpts f id' env' r).map fun (os, r') => (o :: os, r')
             | none => none
           | none => none
         | none => none
@@ -165,7 +174,7 @@ def query (c : Cfg) (p : Bytes) : String :=
 def handle (line : String) : String :=
   let toks := line.splitOn " "
   let fuel := 2 * toks.length + 4
-  match pOpts fuel 1 toks with
+  match pOpts fuel 1 [] toks with
   | none => "bad-line"
   | some (opts, pathToks) =>
     match pathToks.mapM fromHex with
